@@ -394,6 +394,8 @@ func chanID(v ssa.Value, isCell bool) ssa.Value {
 type cloop struct {
 	body       map[*ssa.BasicBlock]bool
 	count      func() countExpr // number of iterations
+	idx        ssa.Value        // the induction value seen by the body
+	stepped    bool             // idx advances by the stride (for o := 0; o < n; o += e) instead of by one
 	iterStart  an.Point
 	iterEnd    func(ssa.Instruction) bool
 	normalExit func(b, s *ssa.BasicBlock) bool
@@ -438,6 +440,19 @@ func countNorm(v ssa.Value) countExpr {
 					if out.n == nil || out.e == nil {
 						out.n, out.e = nil, nil
 					}
+				}
+			}
+		}
+		return out
+	}
+	if q, ok := v.(*ssa.BinOp); ok && q.Op == token.QUO {
+		// (n + e - 1) / e
+		if sub, ok := q.X.(*ssa.BinOp); ok && sub.Op == token.SUB && an.IsConstInt(sub.Y, 1) {
+			if add, ok := sub.X.(*ssa.BinOp); ok && add.Op == token.ADD {
+				if add.Y == q.Y {
+					out.n, out.e = add.X, q.Y
+				} else if add.X == q.Y {
+					out.n, out.e = add.Y, q.Y
 				}
 			}
 		}
@@ -545,6 +560,7 @@ func findStepLoops(fn *ssa.Function) []*cloop {
 		cl := cloopOfLoop(l)
 		n, e := cond.Y, step
 		cl.count = func() countExpr { return countExpr{n: n, e: e} }
+		cl.idx, cl.stepped = phi, true
 		out = append(out, cl)
 	}
 	return out
@@ -555,6 +571,7 @@ func cloopOfRot(l *RotLoop) *cloop {
 	return &cloop{
 		body:       l.Body,
 		count:      func() countExpr { return countNorm(l.Bound) },
+		idx:        l.Idx,
 		iterStart:  an.Point{Block: l.Head, Idx: 0},
 		iterEnd:    func(i ssa.Instruction) bool { return i == last },
 		normalExit: func(b, s *ssa.BasicBlock) bool { return b == l.Latch && s == l.Done },
@@ -573,6 +590,7 @@ func cloopOfLoop(l *Loop) *cloop {
 	first := l.Header.Instrs[0]
 	return &cloop{
 		body: body,
+		idx:  l.Idx,
 		count: func() countExpr {
 			if mk, ok := l.BoundLen.(*ssa.MakeSlice); ok {
 				// for i := range make([]T, W): the slice header is not reassigned (exact root)
@@ -586,6 +604,125 @@ func cloopOfLoop(l *Loop) *cloop {
 		backEdge:   func(b, s *ssa.BasicBlock) bool { return s == l.Header },
 		bypass:     func(b, s *ssa.BasicBlock) bool { return false },
 	}
+}
+
+// ScatterPartition (C08.O8): the extents util.Scatter hands to its workers partition [0, inputLen): it starts
+// ceil(inputLen/e) workers, worker w is given offset w*e and min(e, inputLen-offset) entries, and passes exactly these to
+// the work function. (e > 0 is not decided: with e <= 0 the helper does not return at all.)
+func (c *Ctx) ScatterPartition(prop string) {
+	rule := "C08.O8 scatter.partition"
+	fn := c.ScatterHelper(rule)
+	if fn == nil {
+		return
+	}
+	var nP ssa.Value
+	for _, p := range fn.Params {
+		if b, ok := p.Type().Underlying().(*types.Basic); ok && b.Info()&types.IsInteger != 0 {
+			nP = p
+		}
+	}
+	var spawn *cloop
+	var goIns *ssa.Go
+	ngo := 0
+	for _, l := range allCloops(fn) {
+		for b := range l.body {
+			for _, ins := range b.Instrs {
+				if g, ok := ins.(*ssa.Go); ok {
+					if g != goIns {
+						ngo++
+					}
+					spawn, goIns = l, g
+				}
+			}
+		}
+	}
+	if spawn == nil || nP == nil || ngo != 1 {
+		c.R.Unknown(rule, Fn(fn), c.P.FuncPos(fn), "no single counted loop starting the workers found")
+		return
+	}
+	cnt := spawn.count()
+	if cnt.n == nil || cnt.n != nP {
+		c.R.Fail(rule, Fn(fn)+":count", c.Pos(goIns), "the number of workers started is not ceil(inputLen/extent): "+an.Term(cnt.v)+"; extents at the end of the input are never handed to a worker (or are handed out twice)", "ceil(inputLen/extentSize) workers", nil)
+		return
+	}
+	e := cnt.e
+	args := goIns.Call.Args
+	if len(args) < 2 {
+		c.R.Unknown(rule, Fn(fn), c.Pos(goIns), "the worker is not started with (offset, entries)")
+		return
+	}
+	off, ent := args[0], args[1]
+	okOff := false
+	if spawn.stepped {
+		okOff = off == spawn.idx
+	} else if m, ok := off.(*ssa.BinOp); ok && m.Op == token.MUL {
+		okOff = (m.X == spawn.idx && m.Y == e) || (m.Y == spawn.idx && m.X == e)
+	}
+	if !okOff {
+		c.R.Fail(rule, Fn(fn)+":offset", c.Pos(goIns), "worker w is not started at offset w*extent: "+an.Term(off), "offset = worker * extentSize", nil)
+		return
+	}
+	isRest := func(v ssa.Value) bool {
+		sub, ok := v.(*ssa.BinOp)
+		return ok && sub.Op == token.SUB && sub.X == nP && sub.Y == off
+	}
+	okEnt := false
+	switch x := ent.(type) {
+	case *ssa.Call:
+		if isBuiltin(x, "min") && len(x.Call.Args) == 2 {
+			okEnt = (x.Call.Args[0] == e && isRest(x.Call.Args[1])) || (x.Call.Args[1] == e && isRest(x.Call.Args[0]))
+		}
+	case *ssa.Phi:
+		if len(x.Edges) == 2 {
+			for k := 0; k < 2; k++ {
+				if x.Edges[k] != e || !isRest(x.Edges[1-k]) {
+					continue
+				}
+				// the rest edge is taken exactly when offset+e exceeds (or reaches) inputLen
+				bFull, bRest := x.Block().Preds[k], x.Block().Preds[1-k]
+				iff, ok := bFull.Instrs[len(bFull.Instrs)-1].(*ssa.If)
+				if !ok || bFull.Succs[0] != bRest || bFull.Succs[1] != x.Block() || len(bRest.Preds) != 1 {
+					continue
+				}
+				cmp, ok := iff.Cond.(*ssa.BinOp)
+				if !ok || (cmp.Op != token.GTR && cmp.Op != token.GEQ) || cmp.Y != nP {
+					continue
+				}
+				add, ok := cmp.X.(*ssa.BinOp)
+				if ok && add.Op == token.ADD && ((add.X == off && add.Y == e) || (add.Y == off && add.X == e)) {
+					okEnt = true
+				}
+			}
+		}
+	}
+	if !okEnt {
+		c.R.Fail(rule, Fn(fn)+":entries", c.Pos(goIns), "the number of entries given to a worker is not min(extent, inputLen-offset): "+an.Term(ent), "entries = extentSize, or inputLen-offset for the last worker", nil)
+		return
+	}
+	// the worker passes its (offset, entries) to the work function unchanged
+	var wf *ssa.Function
+	if mc, ok := goIns.Call.Value.(*ssa.MakeClosure); ok {
+		wf = mc.Fn.(*ssa.Function)
+	} else if f := goIns.Call.StaticCallee(); f != nil && f.Blocks != nil {
+		wf = f
+	}
+	okPass := false
+	if wf != nil && len(wf.Params) >= 2 {
+		for _, ci := range Calls(wf, func(ci ssa.CallInstruction) bool {
+			cc := ci.Common()
+			return !cc.IsInvoke() && cc.StaticCallee() == nil && len(cc.Args) >= 2
+		}) {
+			if _, isB := ci.Common().Value.(*ssa.Builtin); isB {
+				continue
+			}
+			okPass = ci.Common().Args[0] == ssa.Value(wf.Params[0]) && ci.Common().Args[1] == ssa.Value(wf.Params[1])
+		}
+	}
+	if !okPass {
+		c.R.Fail(rule, Fn(fn)+":pass", c.Pos(goIns), "the worker does not call the work function with the offset and entries it was started with", "work(offset, entries, ...)", nil)
+		return
+	}
+	c.R.OK(rule, Fn(fn), c.P.FuncPos(fn), "ceil(inputLen/e) workers; worker w gets offset w*e and min(e, inputLen-offset) entries and hands them to the work function: the extents partition [0, inputLen)")
 }
 
 // ScatterHelper returns util.Scatter.
